@@ -38,7 +38,7 @@ int main(void){ %(setup)s(); %(calls)s %(check)s(); return 0; }
 
 
 def seqir(srcs, threads, rounds, defs=(), setup="setup", check="check", extra_passes="", validate=True,
-          noprune=False, thread_unwind=3, drain=False, benign=()):
+          noprune=False, thread_unwind=3, drain=False, benign=(), ro_fields=()):
     def gen(ctx, q, qdir, overlays):
         incs = ctx.inc_flags(overlays, q.incs)
         lls = []
@@ -78,7 +78,7 @@ def seqir(srcs, threads, rounds, defs=(), setup="setup", check="check", extra_pa
             raise InternalError("opt failed: %s" % (e or o)[-2000:])
         genc = os.path.join(qdir, "gen.c")
         cmd = [sys.executable, os.path.join(HERE, "ll2c.py"), opt_ll, "--threads", ",".join(threads),
-               "--rounds", str(rounds), "--setup", setup, "--check", check] + (["--noprune"] if noprune else []) + (["--drain"] if drain else []) + (["--benign", ",".join(benign)] if benign else [])
+               "--rounds", str(rounds), "--setup", setup, "--check", check] + (["--noprune"] if noprune else []) + (["--drain"] if drain else []) + (["--benign", ",".join(benign)] if benign else []) + (["--ro-fields", ",".join(ro_fields)] if ro_fields else [])
         p = subprocess.run(cmd, capture_output=True, text=True)
         if p.returncode != 0:
             raise InternalError("ll2c failed: %s" % p.stderr[-3000:])
@@ -93,6 +93,8 @@ def seqir(srcs, threads, rounds, defs=(), setup="setup", check="check", extra_pa
                 q.unwind_fn.setdefault(t, thread_unwind)
         q.unwind_fn.setdefault("main", max(rounds, len(threads)) + 1)
         q.info.setdefault("seqir", {}).update({"drain_phase": bool(drain), "benign_calls": list(benign)})
+        if ro_fields:
+            q.info["seqir"]["ro_fields"] = list(ro_fields) + ["(no yield before loads of these struct fields; any thread store to them is an INTERNAL assertion failure of the same query)"]
         q.info.setdefault("seqir", {}).update({
             "threads": threads, "rounds": rounds,
             "yield_points": len(re.findall(r"if\(__yield\(\)\)", p.stdout)),
